@@ -159,7 +159,15 @@ func (pool *TxPool) delTx(tx *types.Transaction) {
 	// delete indexes of sub transactions in box transaction
 	if tx.Type() == params.BoxTx {
 		for _, subTx := range getSubTxs(tx) {
-			delete(pool.hashIndexMap, subTx.Hash())
+			subHash := subTx.Hash()
+			if subIndex, ok := pool.hashIndexMap[subHash]; ok {
+				// The sub tx may be in the pool by itself or in another box (this box is from other miner's block). It must go too, or it stays in txs without index
+				if pool.txs[subIndex] != nil {
+					pool.txs[subIndex] = nil
+					txPoolTotalNumberCounter.Dec(1)
+				}
+				delete(pool.hashIndexMap, subHash)
+			}
 		}
 	}
 }
